@@ -31,6 +31,10 @@ pub enum TxKind {
     /// payer index (1 or 2), fee, route: 0 = no path, 1 = one hop ending at the producer,
     /// 2 = two hops ending at the producer, 3 = one hop ending elsewhere
     Pay { payer: u8, fee: Currency, route: u8 },
+    /// two routed fee-paying payments enter the pool, then a block of another producer arrives
+    /// that spends the first one's input differently and confirms nothing from the pool; the
+    /// round's bundling happens `dt` after that block (handled by the script runner)
+    PeerConflict(Currency),
 }
 
 #[derive(Clone, Debug, PartialEq, Eq)]
@@ -119,7 +123,7 @@ impl Prod {
 
     pub fn make_tx(&self, kind: &TxKind, ts: u64) -> Option<Transaction> {
         match kind {
-            TxKind::None => None,
+            TxKind::None | TxKind::PeerConflict(_) => None,
             TxKind::Pay { payer, fee, route } => {
                 let from = key(*payer);
                 let to = if *payer == 1 { key(2).public } else { key(1).public };
